@@ -453,16 +453,22 @@ def run_tier(prop, tier, verif_seed, workers, runs=None, budget_s=None):
     n = cfg["runs"]
     workers = max(1, min(workers, n))
     deadline = (t0 + budget_s) if budget_s else None
-    shards = [list(range(s, n, workers)) for s in range(workers)]
+    # Plans are dealt to chunks by index (never by completion order); every chunk runs in a FRESH worker process
+    # (max_tasks_per_child=1): JAX's compilation caches grow with every new closure, a long-lived worker would
+    # eventually be OOM-killed in the thorough tiers.
+    chunk = int(getattr(mod, "CHUNK", 400))
+    n_chunks = max(workers, -(-n // chunk))
+    shards = [list(range(s, n, n_chunks)) for s in range(n_chunks)]
+    shards = [sh for sh in shards if sh]
     min_budget = cfg.get("minimise_s", 60)
     args = [(prop, verif_seed, tier, sh, deadline, min_budget) for sh in shards]
     results = []
     harness_errors = []
     ctx = mp.get_context("spawn")
-    if workers == 1:
+    if workers == 1 and len(shards) == 1:
         results = shard_worker(args[0])
     else:
-        with ProcessPoolExecutor(max_workers=workers, mp_context=ctx) as ex:
+        with ProcessPoolExecutor(max_workers=workers, mp_context=ctx, max_tasks_per_child=1) as ex:
             futs = [ex.submit(shard_worker, a) for a in args]
             for f in futs:
                 try:
